@@ -18,11 +18,37 @@ func (w *Worker) recordAssert(s *State, label, cond, note string) {
 		return
 	}
 	neg := tNot(cond)
-	r, _ := w.S.Check(s.Decls, s.PC, []string{neg}, nil)
-	res.Res = r
 	res.Nontrivial = true
+	// Once a label has a confirmed counterexample the check fails anyway: further instances
+	// are decided on the abstraction only (cheap) and carry no model. Likewise a label the
+	// precise solver could not decide is not retried on every path.
+	e.mu.Lock()
+	confirmed := e.cexCount[label]
+	e.mu.Unlock()
+	if confirmed >= 1 {
+		if w.S.Feasible(s.Decls, s.PC, neg) {
+			res.Res = "sat"
+		} else {
+			res.Res = "unsat"
+		}
+		e.mu.Lock()
+		e.Results = append(e.Results, res)
+		e.mu.Unlock()
+		return
+	}
+	pq0 := w.S.PrecQ
+	r, _ := w.S.Check(s.Decls, s.PC, []string{neg}, nil)
+	if w.S.PrecQ > pq0 {
+		e.mu.Lock()
+		e.PrecByLabel[label+" => "+r]++
+		e.mu.Unlock()
+	}
+	res.Res = r
 	if r == "sat" {
 		res.Cex = w.buildCex(s, label, neg, note)
+		e.mu.Lock()
+		e.cexCount[label]++
+		e.mu.Unlock()
 	}
 	e.mu.Lock()
 	e.Results = append(e.Results, res)
@@ -83,7 +109,7 @@ func (w *Worker) buildCex(s *State, label, neg, note string) *Cex {
 			if len(tier) == 1 {
 				continue
 			}
-			r, v := w.S.Check(s.Decls, s.PC, tier, terms)
+			r, v := w.S.CheckPreciseTO(s.Decls, s.PC, tier, terms, 4000)
 			if r == "sat" {
 				vals, shaped = v, len(shape) > 0 || len(nows) == 0
 				break
